@@ -190,9 +190,13 @@ def run_case(rep, prepared=True):
         if rep.get('legacy_ut'):
             legacy_unique_together(rep['legacy_ut'])
         sig0 = vapp_sig()
-        rs = sigs.real_simulate(sig0, 'vapp', [sigs.real_mutation(m) for m in rep['valid']])
-        spec1 = dbrig.spec_from_sig(rs[1])
-        spec1['apps'] = [a for a in spec1['apps'] if a['id'] == 'vapp']
+        if rep.get('spec1'):
+            # the target models are given (no valid evolution leads there: the simulation under test is not asked)
+            spec1 = rep['spec1']
+        else:
+            rs = sigs.real_simulate(sig0, 'vapp', [sigs.real_mutation(m) for m in rep['valid']])
+            spec1 = dbrig.spec_from_sig(rs[1])
+            spec1['apps'] = [a for a in spec1['apps'] if a['id'] == 'vapp']
         evorig.install_models(spec1)
     try:
         real = [sigs.real_mutation(m) for m in rep['evolution']]
@@ -356,7 +360,24 @@ _RNF2 = {'t': 'RenameField', 'model': 'Alpha', 'old': 'bb', 'new': 'bbb', 'db_co
 # deterministic family: the residual difference between the simulated signature and the models is
 # one-directional (something only the stored side has / only the models have); the remaining
 # evolution is effective on its own, so "nothing to do" cannot hide the decision
+def _relation_pk(kind):
+    """a model whose primary key is a relation field (column `owner_id`), and the same model with an ordinary key: the
+    models have switched keys, so the only thing that can stop the evolution is the rule "a primary key is not deleted"""
+    plain = lambda name, fields: {'name': name, 'table': 'vapp_%s' % name.lower(), 'unique_together': [],
+                                  'index_together': [], 'indexes': [], 'constraints': [], 'fields': fields}
+    pk = {'name': 'id', 'type': 'AutoField', 'attrs': {'primary_key': True}, 'related': None}
+    owner = plain('Owner', [pk, _f('n', 'IntegerField', null=True)])
+    link = {'name': 'owner', 'type': kind, 'attrs': {'primary_key': True}, 'related': 'vapp.Owner'}
+    spec0 = {'apps': [{'id': 'vapp', 'models': [owner, plain('Profile', [link, _f('note', 'IntegerField', null=True)])]}]}
+    spec1 = {'apps': [{'id': 'vapp', 'models': [owner, plain('Profile', [_f('note', 'IntegerField', null=True), pk])]}]}
+    return {'spec0': spec0, 'spec1': spec1, 'valid': [], 'perturbation': 'family:delete a primary key that is a %s' % kind,
+            'evolution': [{'t': 'DeleteField', 'model': 'Profile', 'field': 'owner'},
+                          {'t': 'AddField', 'model': 'Profile', 'field': 'id', 'ftype': 'AutoField', 'initial': '1',
+                           'attrs': [['primary_key', 'true']]}]}
+
+
 FAMILY = [
+    _relation_pk('OneToOneField'), _relation_pk('ForeignKey'),
     {'spec0': _two(), 'valid': [_ADD, _DELM], 'perturbation': 'family:drop DeleteModel', 'evolution': [_ADD]},
     {'spec0': _two(), 'valid': [_ADD, _DELM], 'perturbation': 'family:drop AddField', 'evolution': [_DELM]},
     {'spec0': _two(), 'valid': [_ADD, _DELF], 'perturbation': 'family:drop DeleteField', 'evolution': [_ADD]},
